@@ -57,7 +57,8 @@ func guarded(f func() string) string {
 			case r := <-done:
 				res = r
 			case <-time.After(8 * time.Second):
-				hangs++ // the goroutine keeps spinning; after a few of them the run stops generating
+				hangs++ // the goroutine keeps spinning; the operation is given up after a few of them (see add)
+				hangOp = true
 			}
 		}
 	})
@@ -80,6 +81,7 @@ func guardedProbe(f func() string, probe func()) string {
 	if r, ok := first.Load().(string); ok && (res == "hang" || res == "panic") {
 		if res == "hang" {
 			hangs-- // parked on a lock, not spinning
+			hangOp = false
 		}
 		return r + blocked
 	}
@@ -237,6 +239,7 @@ func Eval(c *core.Ctx, line string) *core.Case {
 		if d, ok := done6.Load().(string); ok && (impl == "hang" || impl == "panic") {
 			if impl == "hang" {
 				hangs--
+				hangOp = false
 			}
 			impl = d + blocked
 			blockedOps[f[0]]++
@@ -293,16 +296,32 @@ func Eval(c *core.Ctx, line string) *core.Case {
 	return nil
 }
 
-var hangs int
+// hangs counts all hang witnesses of the run (bounded by 12 spinning goroutines); hangsByOp charges
+// them to the operation of the line being evaluated: an operation is given up after 3 witnesses, the
+// other operations go on (a hang in one handler must not hide a defect in another).
+var (
+	hangs     int
+	hangOp    bool
+	hangsByOp = map[string]int{}
+)
 
 func add(c *core.Ctx, class, line string) {
-	if hangs >= 3 || blockedOps[strings.SplitN(line, " ", 2)[0]] >= 2 {
+	op := strings.SplitN(line, " ", 2)[0]
+	if hangs >= 12 || hangsByOp[op] >= 3 || blockedOps[op] >= 2 {
+		c.Drop(class, "skipped: hang budget of "+op+" spent")
 		return
 	}
-	if cs := Eval(c, line); cs != nil {
-		cs.Class = class
-		c.Add(*cs)
+	hangOp = false
+	cs := Eval(c, line)
+	if hangOp {
+		hangsByOp[op]++
 	}
+	if cs == nil {
+		c.Drop(class, "not evaluated")
+		return
+	}
+	cs.Class = class
+	c.Add(*cs)
 }
 
 func arpMsg(op uint16, smac []byte, sip [4]byte, tmac []byte, tip [4]byte) []byte {
